@@ -192,7 +192,10 @@ func TestNumbering(t *testing.T) {
 	hx.Rule(test, "generated modules biased to unnamed parameters, blocks, instruction results and globals (80% of locals unnamed), with void and non-void calls, invokes, callbrs, stores and fences interleaved, unnamed global variables, aliases and functions interleaved in shuffled textual order, spelled with implicit numbering or explicit numbering ('%3 =', '3:'), callee types written as return type or as full function type: (1) LLVM reads the same module from the library's output (so every %N/@N use is bound to the right value and the printed numbering is what LLVM expects), (2) the IDs the parser assigns equal the reference numbering value by value, (3) AssignIDs/AssignGlobalIDs/String() a second time change nothing and do not fail; non-trivial = >= 2 unnamed values and >= 1 instruction that consumes no number, or unnamed globals of >= 2 kinds")
 	hx.Check(t, test, hx.N(150, 4000), func(rt *rapid.T) {
 		m, _ := gen.Module(rt, cfg())
-		noise := am.Noise{Explicit: rapid.Bool().Draw(rt, "explicit"), FullCallType: rapid.Bool().Draw(rt, "fullCalleeType"), LeadingZeros: rapid.IntRange(0, 2).Draw(rt, "leadingZeros") == 0}
+		noise := am.Noise{Explicit: rapid.Bool().Draw(rt, "explicit"), FullCallType: rapid.Bool().Draw(rt, "fullCalleeType"), LeadingZeros: rapid.IntRange(0, 2).Draw(rt, "leadingZeros") == 0,
+			// callee types spelled through named function types: whether a call defines a value (and takes a
+			// number) is decided by the type the name denotes
+			FnAlias: rapid.IntRange(0, 2).Draw(rt, "fnAlias") == 0}
 		hx.Eval(1)
 		if checkCase(rt, test, m, noise) {
 			u, nn, gk := shape(m)
